@@ -23,7 +23,8 @@
      answering what it holds with the dropped-packet error, leaves nothing pending anywhere and has answered every
      request that ever arrived at any node exactly once (real answer before, dropped-packet error or real answer
      after); every answer ever given is the dropped-packet error, the node's own result, or the join of earlier
-     answers to the derived packets.
+     answers to the derived packets.  C03_network_teardown_one_answer: after the teardown every packet that ever
+     arrived anywhere has exactly one recorded answer.
    PARTIAL: port and process teardown (port close with late listeners, exit hooks) reduce to closes of readers and
    writers, which the first three theorems cover per writer, and to node closes (the two theorems above); that the
    real teardown IS that composition is enumerated on the implementation: src -> A -> B -> sink with
@@ -87,6 +88,13 @@ Theorem C03_network_teardown : forall (ans : Type) (join : list ans -> ans) (dro
   /\ Network.ans_ok ans join drop (Network.n_der ans st') (Network.n_ans ans st').
 Proof. exact Network.teardown_any_run. Qed.
 Print Assumptions C03_network_teardown.
+
+Theorem C03_network_teardown_one_answer : forall (ans : Type) (join : list ans -> ans) (drop : ans) (N : nat) ls,
+  let st' := Network.teardown ans join drop N (Network.run ans join drop N ls) in
+  NoDup (map fst (Network.n_ans ans st')) /\
+  forall n id, In id (Network.n_arr ans (Network.run ans join drop N ls) n) -> In id (map fst (Network.n_ans ans st')).
+Proof. exact Network.teardown_one_answer. Qed.
+Print Assumptions C03_network_teardown_one_answer.
 
 (* non-vacuity: a diamond 0 -> {1, 2} -> 3 torn down with two requests in flight (one inside node 0's action, one
    waiting for node 3): every node ends with nothing pending, the outside gets one answer per request *)
